@@ -698,7 +698,7 @@ class Engine(Executor):
                 return [(s, Z(V.VNone))]
             if meth == "copy":
                 return [(s, s.alloc(box.clone()))]
-            if meth == "pop" and not args and box.length is not None and box.elem_ann is not None:
+            if meth == "pop" and not args and box.length is not None:
                 out = []
                 for (s2, x) in self.need(s, box.length > 0, "IndexError", node, "pop() from a non-empty collection"):
                     if x is not None:
@@ -1262,7 +1262,10 @@ class Engine(Executor):
                     st.assume(ln >= 0)
                     st.store[v.ref] = AbsBox(box.kind, ln, box.elem_ann)
                 elif isinstance(box, ObjBox):
-                    raise Unsupported("loop reassigns object variable %s" % n)
+                    # an object the loop body mutates (method calls on it): an arbitrary instance of the same class
+                    # at the loop head; its fields are re-created lazily (typed by assume_fields where named)
+                    nb = ObjBox(box.cls, {}, symbolic=True, ident=z3.Int("loop_%s_id!%s" % (n, tag)), name=n)
+                    st.store[v.ref] = nb
             elif isinstance(v, PyTuple):
                 raise Unsupported("loop reassigns tuple variable %s" % n)
             else:
@@ -1675,7 +1678,9 @@ class Engine(Executor):
         # `for` loops iterate values their body does not resize (checked where the loop is executed)
         whiles = [n for n in ast.walk(fi.node) if isinstance(n, ast.While)]
         selfcalls = [n for n in ast.walk(fi.node) if isinstance(n, ast.Call) and
-                     ((isinstance(n.func, ast.Attribute) and n.func.attr == fi.name) or (isinstance(n.func, ast.Name) and n.func.id == fi.name))]
+                     ((isinstance(n.func, ast.Attribute) and n.func.attr == fi.name and isinstance(n.func.value, ast.Name)
+                       and (n.func.value.id in ("self", "cls") or n.func.value.id[:1].isupper()))       # self.f(...) / Class.f(...)
+                      or (isinstance(n.func, ast.Name) and n.func.id == fi.name))]
         k6 = self.add_obl("K6", fi.node, "termination structure: %d for-loop(s) over values the body does not resize, %d while-loop(s), %d self-call(s)"
                           % (sum(1 for n in ast.walk(fi.node) if isinstance(n, ast.For)), len(whiles), len(selfcalls)), [T(False)])
         k6.status, k6.solver = "unsat", "syntactic"
